@@ -621,6 +621,12 @@ def gen_case(rng):
     glob = rng.choice(["none", "toml", "toml", "toml", "dep5"])
     tree = []
     dirs = [""] + rng.sample(DIRS, rng.randint(1, 4))
+    if rng.random() < 0.35:
+        # directories whose names merely contain the name of an exempt directory (as a prefix, a suffix, in the middle, in another
+        # case), at the top level or below another directory of the project: ordinary directories, their files are covered
+        for _ in range(rng.randint(1, 2)):
+            above = rng.choice(["", "", ""] + [x + "/" for x in dirs[1:]])
+            dirs.append(above + rng.choice(rc.LOOKALIKE_DIRS) + rng.choice(["", "", "/workflows"]))
     files = []
     for d in dirs:
         for name in rng.sample(FILES, rng.randint(0 if d else 1, 3)):
@@ -652,6 +658,11 @@ def gen_case(rng):
               ("subprojects/y/m.py", {"t": "text", "style": "py", "cop": rand_notices(rng, 1), "lic": [rc.rand_expr(rng, pool)]})]
     for p, b in rng.sample(extras, rng.randint(0, 4)):
         add_path(tree, p, ["f", b])
+    if rng.random() < 0.1:
+        # a regular file called what an exempt directory is called: covered like any other file
+        p = rng.choice(rc.EXEMPT_NAMED_FILES)
+        if add_path(tree, p, ["f", rand_text_body(rng, pool, "txt")]):
+            files.append(p)
     if rng.random() < 0.3 and files:
         add_path(tree, rng.choice(["link.py", "src/link.c"]), ["l", rng.choice(["nowhere", os.path.basename(files[0])])])
     # global licensing
@@ -786,7 +797,9 @@ def gen_case(rng):
 
 class E2EModelStream(Stream):
     name = "e2e-model"
-    rule = ("generated projects (1-5 directories incl. names with blanks, dots, `subprojects/x`; text files with headers in 7 comment styles "
+    rule = ("generated projects (1-5 directories incl. names with blanks, dots, `subprojects/x`, one project in three with directories whose "
+            "names have .git / .hg / .sl / LICENSES / .reuse as a proper prefix, suffix, in the middle or in another case (`.github/workflows`, "
+            "`x.git`, `OLD-LICENSES`, `a.reuse.b`, `licenses`), at the top level or deeper, and regular files called `.hg`, `LICENSES`, … ; text files with headers in 7 comment styles "
             "and 5 notice forms, tags beyond the 4 KiB window with and without snippet marker, unparseable expression, ignore block, CRLF; "
             "binaries; .license siblings: full / partial / empty / a directory / a dangling symlink; excluded names and directories, empty "
             "files, symlinks; nested REUSE.toml files with 1-4 tables, 10 glob shapes relative to their own directory, the three "
